@@ -1,6 +1,6 @@
 #!/bin/bash
 # tools/adopt_seed.sh <ID> <name> : verify an agent-produced seeded change in a fresh scratch worktree and store it under seeded/<name>/
-ID=$1; NAME=$2; SRC=/tmp/seed/$ID/_out
+ID=$1; NAME=$2; SRC=${SEED_ROOT:-/tmp/seed2}/$ID/_out
 D=$(mktemp -d /tmp/vfa.XXXXXX); rmdir $D
 git -C /repo worktree add --detach "$D" HEAD >/dev/null 2>&1 || exit 9
 trap 'git -C /repo worktree remove --force "$D" >/dev/null 2>&1; rm -rf "$D"' EXIT
